@@ -1,6 +1,10 @@
 package main
 
 import (
+	"os"
+	"path/filepath"
+	"regexp"
+
 	"bytes"
 	"cmp"
 	"encoding/hex"
@@ -22,6 +26,8 @@ import (
 func init() {
 	addRun("C17", "key sets for name trees (random bytes, shared prefixes, prefix chains, empty key, non-ASCII, long keys) and number trees (dense, sparse, negative, int64 extremes) of sizes 0..10000 crossing 64 and 4096 (quick: up to 4097 once, mostly <= 600), written with Write/WriteMap, values of six object kinds; probes: present keys (incl. leaf boundaries), absent keys between neighbours, below the minimum, above the maximum; plus unsorted/duplicate sequences; every size class also written while a stream is open on the pdf.Writer (all Puts queued until the stream closes, with and without other queued objects), then every present key looked up; a fixed corpus of keys a text decoder would alter (byte-order marks FE FF / FF FE / EF BB BF, UTF-16 text together with the text it spells, NUL, PDFDocEncoding specials 18-1F 7F-9F AD, parentheses, backslash, line ends, every single byte) and a generator mode for them; on every tree one FromFile object serves Lookups and a nested All() while its All() is suspended, and two of its iterators advance alternately. A case is non-trivial when it has at least two keys; distinct by kind, key sequence and probes.", runC17)
 	addReplay("C17", "tree", replayC17)
+	addRun("C17", "histories on ONE in-memory tree value (InMemory.Data is exported and mutable): random sequences of insert, replace, delete, delete-one-insert-another (same size), clear (in place / new map), All(), Lookup and Embed-then-extract over a small key pool (sometimes 60..200 keys); after every step All() and Lookup must show exactly the current map, the written tree likewise. Non-trivial from four steps; distinct by the step string.", runC17History)
+	addReplay("C17", "history", replayC17History)
 }
 
 // trsTreeReader is what both FromFile and InMemory offer.
@@ -37,11 +43,16 @@ type trsTreeAPI[K cmp.Ordered] struct {
 	writeMap func(w *pdf.Writer, m map[K]pdf.Object) (pdf.Reference, error) // may be nil
 	fromFile func(r pdf.Getter, root pdf.Object) (trsTreeReader[K], error)
 	inMemory func(r pdf.Getter, root pdf.Object) (trsTreeReader[K], error)
-	size     func(r pdf.Getter, root pdf.Object) (int, error)
-	decode   func(o pdf.Object) (K, bool)
-	tok      func(K) string
-	untok    func(string) (K, error)
-	hash     func(K) uint64
+	// embedMem: InMemory{Data: m}.Embed; embedFile: ExtractFromFile(r, root).Embed (a tree copied
+	// from another file by the streaming reader)
+	embedMem  func(rm *pdf.ResourceManager, m map[K]pdf.Object) (pdf.Native, error)
+	embedFile func(rm *pdf.ResourceManager, r pdf.Getter, root pdf.Object) (pdf.Native, error)
+	newMem    func() *trsMemHandle[K] // a fresh, empty in-memory tree value
+	size      func(r pdf.Getter, root pdf.Object) (int, error)
+	decode    func(o pdf.Object) (K, bool)
+	tok       func(K) string
+	untok     func(string) (K, error)
+	hash      func(K) uint64
 }
 
 var trsNameAPI = trsTreeAPI[pdf.Name]{
@@ -56,6 +67,25 @@ var trsNameAPI = trsTreeAPI[pdf.Name]{
 	},
 	inMemory: func(r pdf.Getter, root pdf.Object) (trsTreeReader[pdf.Name], error) {
 		return nametree.ExtractInMemory(r, root)
+	},
+	embedMem: func(rm *pdf.ResourceManager, m map[pdf.Name]pdf.Object) (pdf.Native, error) {
+		return rm.Embed(&nametree.InMemory{Data: m})
+	},
+	embedFile: func(rm *pdf.ResourceManager, r pdf.Getter, root pdf.Object) (pdf.Native, error) {
+		t, err := nametree.ExtractFromFile(r, root)
+		if err != nil {
+			return nil, err
+		}
+		return rm.Embed(t)
+	},
+	newMem: func() *trsMemHandle[pdf.Name] {
+		t := &nametree.InMemory{Data: map[pdf.Name]pdf.Object{}}
+		return &trsMemHandle[pdf.Name]{
+			reader: t,
+			data:   func() map[pdf.Name]pdf.Object { return t.Data },
+			reset:  func(m map[pdf.Name]pdf.Object) { t.Data = m },
+			embed:  func(rm *pdf.ResourceManager) (pdf.Native, error) { return rm.Embed(t) },
+		}
 	},
 	size: nametree.Size,
 	decode: func(o pdf.Object) (pdf.Name, bool) {
@@ -89,6 +119,25 @@ var trsNumAPI = trsTreeAPI[pdf.Integer]{
 	inMemory: func(r pdf.Getter, root pdf.Object) (trsTreeReader[pdf.Integer], error) {
 		return numtree.ExtractInMemory(r, root)
 	},
+	embedMem: func(rm *pdf.ResourceManager, m map[pdf.Integer]pdf.Object) (pdf.Native, error) {
+		return rm.Embed(&numtree.InMemory{Data: m})
+	},
+	embedFile: func(rm *pdf.ResourceManager, r pdf.Getter, root pdf.Object) (pdf.Native, error) {
+		t, err := numtree.ExtractFromFile(r, root)
+		if err != nil {
+			return nil, err
+		}
+		return rm.Embed(t)
+	},
+	newMem: func() *trsMemHandle[pdf.Integer] {
+		t := &numtree.InMemory{Data: map[pdf.Integer]pdf.Object{}}
+		return &trsMemHandle[pdf.Integer]{
+			reader: t,
+			data:   func() map[pdf.Integer]pdf.Object { return t.Data },
+			reset:  func(m map[pdf.Integer]pdf.Object) { t.Data = m },
+			embed:  func(rm *pdf.ResourceManager) (pdf.Native, error) { return rm.Embed(t) },
+		}
+	},
 	size: numtree.Size,
 	decode: func(o pdf.Object) (pdf.Integer, bool) {
 		i, ok := o.(pdf.Integer)
@@ -100,6 +149,14 @@ var trsNumAPI = trsTreeAPI[pdf.Integer]{
 		return pdf.Integer(i), err
 	},
 	hash: func(k pdf.Integer) uint64 { return uint64(uint32(uint64(k))) },
+}
+
+// trsMemHandle gives the harness the exported, mutable parts of an in-memory tree value.
+type trsMemHandle[K cmp.Ordered] struct {
+	reader trsTreeReader[K]
+	data   func() map[K]pdf.Object
+	reset  func(map[K]pdf.Object)
+	embed  func(rm *pdf.ResourceManager) (pdf.Native, error)
 }
 
 // ---- values: the i-th entry stores an object from which i can be recovered ----
@@ -160,6 +217,7 @@ type trsTreeCase[K cmp.Ordered] struct {
 	style  int
 	useMap bool
 	stream int // 0: plain; 1: the tree is written while a stream is open on the pdf.Writer (every Put is queued until the stream closes); 2: same, with other objects queued before and after
+	via    int // 0: Write/WriteMap; 2: InMemory{Data}.Embed; 3: FromFile.Embed of a tree first written to another file
 }
 
 // trsOther is an object the harness itself wrote next to the tree (to see that
@@ -170,7 +228,7 @@ type trsOther struct {
 }
 
 func trsEncodeCase[K cmp.Ordered](api *trsTreeAPI[K], tc *trsTreeCase[K]) string {
-	return fmt.Sprintf("%s|%d|%v|%s|%s|%d", api.kind, tc.style, tc.useMap, trsToks(api, tc.keys), trsToks(api, tc.probes), tc.stream)
+	return fmt.Sprintf("%s|%d|%v|%s|%s|%d|%d", api.kind, tc.style, tc.useMap, trsToks(api, tc.keys), trsToks(api, tc.probes), tc.stream, tc.via)
 }
 
 func trsToks[K cmp.Ordered](api *trsTreeAPI[K], ks []K) string {
@@ -236,7 +294,46 @@ func trsWriteFile[K cmp.Ordered](api *trsTreeAPI[K], tc *trsTreeCase[K]) (data [
 			put(pdf.Array{pdf.String("queued before the tree")})
 		}
 	}
-	if tc.useMap && api.writeMap != nil {
+	asRef := func(n pdf.Native, err error) (pdf.Reference, error) {
+		if err != nil || n == nil {
+			return 0, err
+		}
+		ref, ok := n.(pdf.Reference)
+		if !ok {
+			return 0, fmt.Errorf("Embed returned %T", n)
+		}
+		return ref, nil
+	}
+	if tc.via == 2 {
+		m := make(map[K]pdf.Object, len(tc.keys))
+		for i, k := range tc.keys {
+			m[k] = trsVal(i, tc.style)
+		}
+		rm := pdf.NewResourceManager(w)
+		root, werr = asRef(api.embedMem(rm, m))
+		if err := rm.Close(); err != nil && werr == nil {
+			werr = err
+		}
+	} else if tc.via == 3 {
+		// write the tree to a first file, then let the streaming reader copy it
+		src := *tc
+		src.via, src.stream = 0, 0
+		data1, root1, _, _, err1 := trsWriteFile(api, &src)
+		if err1 != nil || root1 == 0 {
+			werr = err1
+		} else {
+			rd1, err := pdf.NewReader(bytes.NewReader(data1), int64(len(data1)), nil)
+			if err != nil {
+				panic(err)
+			}
+			rm := pdf.NewResourceManager(w)
+			root, werr = asRef(api.embedFile(rm, rd1, root1))
+			if err := rm.Close(); err != nil && werr == nil {
+				werr = err
+			}
+			rd1.Close()
+		}
+	} else if tc.useMap && api.writeMap != nil {
 		m := make(map[K]pdf.Object, len(tc.keys))
 		for i, k := range tc.keys {
 			m[k] = trsVal(i, tc.style)
@@ -451,7 +548,7 @@ func trsRunCase[K cmp.Ordered](api *trsTreeAPI[K], tc *trsTreeCase[K]) (implLine
 	// the map being stored (for WriteMap a later duplicate would overwrite; the
 	// generator only uses WriteMap with distinct keys)
 	want := append([]K(nil), tc.keys...)
-	if tc.useMap && api.writeMap != nil {
+	if (tc.useMap && api.writeMap != nil) || tc.via == 2 {
 		sort.Slice(want, func(i, j int) bool { return want[i] < want[j] })
 		sortedInput = true
 		for i := 1; i < len(want); i++ {
@@ -618,8 +715,12 @@ func trsRunCase[K cmp.Ordered](api *trsTreeAPI[K], tc *trsTreeCase[K]) (implLine
 
 func replayC17(input string) (bool, string) {
 	parts := strings.Split(input, "|")
-	if len(parts) != 5 && len(parts) != 6 {
+	if len(parts) < 5 || len(parts) > 7 {
 		return true, "bad replay input"
+	}
+	via := 0
+	if len(parts) == 7 {
+		via, _ = strconv.Atoi(parts[6])
 	}
 	style, _ := strconv.Atoi(parts[1])
 	useMap := parts[2] == "true"
@@ -635,19 +736,99 @@ func replayC17(input string) (bool, string) {
 		if e1 != nil || e2 != nil {
 			return true, "bad replay input"
 		}
-		line, fails = trsRunCase(&trsNameAPI, &trsTreeCase[pdf.Name]{keys, probes, style, useMap, stream})
+		line, fails = trsRunCase(&trsNameAPI, &trsTreeCase[pdf.Name]{keys, probes, style, useMap, stream, via})
 	} else {
 		keys, e1 := trsUntoks(&trsNumAPI, parts[3])
 		probes, e2 := trsUntoks(&trsNumAPI, parts[4])
 		if e1 != nil || e2 != nil {
 			return true, "bad replay input"
 		}
-		line, fails = trsRunCase(&trsNumAPI, &trsTreeCase[pdf.Integer]{keys, probes, style, useMap, stream})
+		line, fails = trsRunCase(&trsNumAPI, &trsTreeCase[pdf.Integer]{keys, probes, style, useMap, stream, via})
 	}
 	if len(fails) > 0 {
 		return false, fmt.Sprintf("%s: %s (impl line %s)", fails[0].key, fails[0].desc, truncate(line))
 	}
 	return true, "tree written and read back: " + truncate(line)
+}
+
+// trsBigLine drops the in-memory reader's part of a result line (the `ntb` operation of the
+// driver does not run the quadratic in-memory model on big trees; the oracle still checks the
+// real in-memory reader).
+func trsBigLine(line string) string {
+	i := strings.Index(line, " M:")
+	j := strings.Index(line, " AS:")
+	k := strings.Index(line, " AM:")
+	if i < 0 || j < 0 || k < 0 {
+		return line
+	}
+	return line[:i] + line[j:k]
+}
+
+// trsStructIdx: positions worth looking up in a big tree: the whole last leaf and the leaf
+// before it, the first and last key of every leaf (the ends of every /Limits interval), the
+// keys around every multiple of F*F (first/last leaf of every intermediate node), some random.
+func trsStructIdx(r *Rand, n, F int) []int {
+	seen := map[int]bool{}
+	var out []int
+	add := func(i int) {
+		if i >= 0 && i < n && !seen[i] {
+			seen[i] = true
+			out = append(out, i)
+		}
+	}
+	lastLeaf := (n - 1) / F * F
+	for i := lastLeaf - 3; i < n; i++ { // the whole last leaf, the end of the one before
+		add(i)
+	}
+	lastNode := (n - 1) / (F * F) * (F * F) // first key below the last intermediate node of depth 1
+	for i := 0; i < n; i += F {
+		if i >= lastNode || (i/F)%8 == 0 { // ends of every leaf of the last node, of every 8th leaf elsewhere
+			add(i)
+			add(i - 1)
+		}
+	}
+	for i := 0; i <= n; i += F * F {
+		for _, d := range []int{-F - 1, -F, -F + 1, -2, -1, 0, 1, 2, F - 1, F, F + 1} {
+			add(i + d)
+		}
+	}
+	for i := 0; i < 20; i++ {
+		add(r.Intn(n))
+	}
+	return out
+}
+
+// trsFanout reads pdftree.maxChildren from the facts that tools/extract regenerates from the
+// source on every check (lean/PdfVerif/Generated/FactsTRS.lean, found relative to the harness
+// binary in <verif>/.build); if the file cannot be found it measures the fan-out on a written
+// tree (size of the first leaf).
+func trsFanout() int {
+	if exe, err := os.Executable(); err == nil {
+		root := filepath.Dir(filepath.Dir(exe))
+		if raw, err := os.ReadFile(filepath.Join(root, "lean", "PdfVerif", "Generated", "FactsTRS.lean")); err == nil {
+			if m := regexp.MustCompile(`def pdftree_maxChildren : Nat := (\d+)`).FindSubmatch(raw); m != nil {
+				if v, err := strconv.Atoi(string(m[1])); err == nil && v >= 2 && v <= 1024 {
+					return v
+				}
+			}
+		}
+	}
+	keys := make([]pdf.Integer, 3000)
+	for i := range keys {
+		keys[i] = pdf.Integer(i)
+	}
+	tc := &trsTreeCase[pdf.Integer]{keys: keys}
+	line, _ := trsRunCase(&trsNumAPI, tc)
+	if i := strings.Index(line, "L"); i >= 0 {
+		j := i + 1
+		for j < len(line) && line[j] >= '0' && line[j] <= '9' {
+			j++
+		}
+		if v, err := strconv.Atoi(line[i+1 : j]); err == nil && v >= 2 {
+			return v
+		}
+	}
+	return 64
 }
 
 // ---- keys that a text-string decoder would not leave alone ----
@@ -925,6 +1106,340 @@ func trsInterleave[K cmp.Ordered](api *trsTreeAPI[K], stream, mem trsTreeReader[
 	}
 }
 
+// ---- histories on one in-memory tree value ----
+
+// trsRunHistory performs the operations on ONE InMemory value: `s<key>=<v>` Data[key]=v,
+// `d<key>` delete, `c` clear, `a` All(), `l<key>` Lookup, `w` Embed into a fresh file and read
+// back with both readers.  After every operation All() and a Lookup of the key just touched
+// must show exactly the current content of the map; nothing may depend on what the value
+// was asked before.
+func trsRunHistory[K cmp.Ordered](api *trsTreeAPI[K], ops []string) (implLine string, fails []trsFail) {
+	defer func() {
+		if r := recover(); r != nil {
+			fails = append(fails, trsFail{"panic", fmt.Sprintf("panic: %v", r)})
+			implLine = "panic"
+		}
+	}()
+	fail := func(key, format string, a ...any) {
+		if len(fails) < 6 {
+			fails = append(fails, trsFail{key, fmt.Sprintf(format, a...)})
+		}
+	}
+	mh := api.newMem()
+	cur := map[K]int{}
+	nClear := 0
+	sorted := func() []K {
+		ks := make([]K, 0, len(cur))
+		for k := range cur {
+			ks = append(ks, k)
+		}
+		sort.Slice(ks, func(i, j int) bool { return ks[i] < ks[j] })
+		return ks
+	}
+	// enumerate a reader and compare with the map's current content
+	enum := func(where string, t trsTreeReader[K], key string) string {
+		want := sorted()
+		i := 0
+		h := uint64(1)
+		bad := false
+		for k, v := range t.All() {
+			vi, ok := v.(pdf.Integer)
+			if !bad && (i >= len(want) || k != want[i] || !ok || int(vi) != cur[k]) {
+				fail(key, "%s: entry %d is %s = %v; the map holds %d entries", where, i, api.tok(k), v, len(want))
+				bad = true
+			}
+			h = (h*31 + api.hash(k) + 7*uint64(vi)) % (1 << 32)
+			i++
+		}
+		if i != len(want) && !bad {
+			fail(key, "%s gave %d entries, the map holds %d", where, i, len(want))
+		}
+		return fmt.Sprintf("%d:%d", i, h)
+	}
+	lookup := func(where string, k K) string {
+		v, err := mh.reader.Lookup(k)
+		if want, present := cur[k]; present {
+			if vi, ok := v.(pdf.Integer); err != nil || !ok || int(vi) != want {
+				fail("history-lookup", "%s: Lookup(%s) = %v, %v; the map holds %d", where, api.tok(k), v, err, want)
+			}
+		} else if !errors.Is(err, nametree.ErrKeyNotFound) {
+			fail("history-lookup", "%s: Lookup(%s) of a key that is not in the map = %v, %v", where, api.tok(k), v, err)
+		}
+		return trsLookupTok(v, err)
+	}
+	var out []string
+	quiet := false // `q` as first operation: look at the value only where the history says so
+	for step, op := range ops {
+		where := fmt.Sprintf("after step %d (%s)", step, op)
+		switch op[0] {
+		case 'q':
+			quiet = true
+			out = append(out, ".")
+			continue
+		case 'x': // exchange: delete one key and insert another in one step (the size stays)
+			i := strings.Index(op, ",")
+			j := strings.LastIndex(op, "=")
+			kd, err := api.untok(op[1:i])
+			ki, err1 := api.untok(op[i+1 : j])
+			v, err2 := strconv.Atoi(op[j+1:])
+			if err != nil || err1 != nil || err2 != nil {
+				panic("harness: bad history op " + op)
+			}
+			delete(mh.data(), kd)
+			delete(cur, kd)
+			mh.data()[ki] = pdf.Integer(v)
+			cur[ki] = v
+			out = append(out, ".")
+			if !quiet {
+				lookup(where, kd)
+				lookup(where, ki)
+			}
+		case 's':
+			i := strings.LastIndex(op, "=")
+			k, err := api.untok(op[1:i])
+			v, err2 := strconv.Atoi(op[i+1:])
+			if err != nil || err2 != nil {
+				panic("harness: bad history op " + op)
+			}
+			mh.data()[k] = pdf.Integer(v)
+			cur[k] = v
+			out = append(out, ".")
+			if !quiet {
+				lookup(where, k)
+			}
+		case 'd':
+			k, err := api.untok(op[1:])
+			if err != nil {
+				panic("harness: bad history op " + op)
+			}
+			delete(mh.data(), k)
+			delete(cur, k)
+			out = append(out, ".")
+			if !quiet {
+				lookup(where, k)
+			}
+		case 'c':
+			if nClear%2 == 0 {
+				for k := range mh.data() {
+					delete(mh.data(), k)
+				}
+			} else {
+				mh.reset(map[K]pdf.Object{})
+			}
+			nClear++
+			cur = map[K]int{}
+			out = append(out, ".")
+		case 'a':
+			out = append(out, enum(where+" All()", mh.reader, "history-all"))
+			continue
+		case 'l':
+			k, err := api.untok(op[1:])
+			if err != nil {
+				panic("harness: bad history op " + op)
+			}
+			out = append(out, lookup(where, k))
+			continue
+		case 'w':
+			buf := &bytes.Buffer{}
+			w, err := pdf.NewWriter(buf, pdf.V1_7, nil)
+			if err != nil {
+				panic(err)
+			}
+			rm := pdf.NewResourceManager(w)
+			n, werr := mh.embed(rm)
+			if err := rm.Close(); err != nil && werr == nil {
+				werr = err
+			}
+			pages := w.Alloc()
+			w.Put(pages, pdf.Dict{"Type": pdf.Name("Pages"), "Kids": pdf.Array{}, "Count": pdf.Integer(0)})
+			w.GetMeta().Catalog.Pages = pages
+			if err := w.Close(); err != nil {
+				panic(err)
+			}
+			if werr != nil {
+				fail("history-write", "%s: Embed: %v", where, werr)
+				out = append(out, "err")
+				continue
+			}
+			data := buf.Bytes()
+			rd, err := pdf.NewReader(bytes.NewReader(data), int64(len(data)), nil)
+			if err != nil {
+				fail("history-write", "%s: the file cannot be opened: %v", where, err)
+				out = append(out, "err")
+				continue
+			}
+			shape := "none"
+			var rootObj pdf.Object
+			if ref, ok := n.(pdf.Reference); ok && ref != 0 {
+				rootObj = ref
+				sw := &trsShapeWalker[K]{api: api, rd: rd}
+				var sb strings.Builder
+				sw.walk(ref, true, 0, &sb)
+				shape = sb.String()
+				for _, f := range sw.fails {
+					fail("history-write", "%s: written tree: %s", where, f.desc)
+				}
+			} else if len(cur) != 0 {
+				fail("history-write", "%s: Embed of a non-empty tree returned %v", where, n)
+			}
+			ff, _ := api.fromFile(rd, rootObj)
+			fm, _ := api.inMemory(rd, rootObj)
+			hs := enum(where+" written, FromFile.All()", ff, "history-write")
+			enum(where+" written, ExtractInMemory.All()", fm, "history-write")
+			rd.Close()
+			out = append(out, shape+" "+hs)
+			continue
+		default:
+			panic("harness: bad history op " + op)
+		}
+		// after every change: the enumeration shows the current content, nothing else
+		if !quiet {
+			enum(where+" All()", mh.reader, "history-all")
+		}
+	}
+	return strings.Join(out, "|"), fails
+}
+
+func replayC17History(input string) (bool, string) {
+	parts := strings.SplitN(input, " ", 2)
+	if len(parts) != 2 {
+		return true, "bad replay input"
+	}
+	ops := strings.Split(parts[1], ";")
+	var line string
+	var fails []trsFail
+	if parts[0] == "name" {
+		line, fails = trsRunHistory(&trsNameAPI, ops)
+	} else {
+		line, fails = trsRunHistory(&trsNumAPI, ops)
+	}
+	if len(fails) > 0 {
+		return false, fmt.Sprintf("%s: %s", fails[0].key, fails[0].desc)
+	}
+	return true, "history ran: " + truncate(line)
+}
+
+// trsGenHistory: a random history over a small pool of keys (so that deletions, replacements
+// and re-insertions hit), with same-size exchanges (delete one, insert another) and clears.
+func trsGenHistory[K cmp.Ordered](r *Rand, api *trsTreeAPI[K], pool []K, steps int) []string {
+	var ops []string
+	present := map[K]bool{}
+	val := 0
+	pickPresent := func() (K, bool) {
+		var ks []K
+		for k := range present {
+			ks = append(ks, k)
+		}
+		if len(ks) == 0 {
+			var z K
+			return z, false
+		}
+		sort.Slice(ks, func(i, j int) bool { return ks[i] < ks[j] })
+		return ks[r.Intn(len(ks))], true
+	}
+	set := func(k K) {
+		val++
+		ops = append(ops, fmt.Sprintf("s%s=%d", api.tok(k), val))
+		present[k] = true
+	}
+	if r.Bool() {
+		ops = append(ops, "q") // no checks between the steps except those of the history itself
+	}
+	// start with some content, most of the time
+	for i := r.Intn(len(pool) + 1); i > 0 && r.P(5, 6); i-- {
+		set(Pick(r, pool))
+	}
+	for len(ops) < steps {
+		switch k := r.Intn(20); {
+		case k < 4:
+			ops = append(ops, "a")
+		case k < 6:
+			ops = append(ops, "l"+api.tok(Pick(r, pool)))
+		case k < 9:
+			set(Pick(r, pool)) // insert or replace
+		case k < 11:
+			if p, ok := pickPresent(); ok { // replace the value of a present key
+				set(p)
+			}
+		case k < 13:
+			if p, ok := pickPresent(); ok {
+				ops = append(ops, "d"+api.tok(p))
+				delete(present, p)
+			}
+		case k < 17:
+			// exchange: delete one key, insert another: the size stays the same
+			if p, ok := pickPresent(); ok {
+				q := Pick(r, pool)
+				if !present[q] {
+					if r.Bool() {
+						val++
+						ops = append(ops, fmt.Sprintf("x%s,%s=%d", api.tok(p), api.tok(q), val))
+						delete(present, p)
+						present[q] = true
+					} else {
+						ops = append(ops, "d"+api.tok(p))
+						delete(present, p)
+						set(q)
+					}
+					if r.Bool() {
+						ops = append(ops, "a")
+					}
+				}
+			}
+		case k < 18:
+			ops = append(ops, "c")
+			present = map[K]bool{}
+		default:
+			ops = append(ops, "w")
+		}
+	}
+	ops = append(ops, "a", "w")
+	return ops
+}
+
+func runC17History(c *Ctx) {
+	r := c.R
+	n := 300
+	if c.Thorough {
+		n = 3000
+	}
+	for i := 0; i < n; i++ {
+		poolSize := 2 + r.Intn(12)
+		if r.P(1, 6) {
+			poolSize = 60 + r.Intn(140) // across the leaf size
+		}
+		steps := 8 + r.Intn(30)
+		if poolSize > 50 {
+			steps = 80 + r.Intn(200)
+		}
+		var ops []string
+		var line, kind string
+		var fails []trsFail
+		if r.Bool() {
+			kind = "name"
+			pool := trsGenNames(r.Fork(), poolSize)
+			ops = trsGenHistory(r.Fork(), &trsNameAPI, pool, steps)
+			line, fails = trsRunHistory(&trsNameAPI, ops)
+		} else {
+			kind = "num"
+			pool := trsGenNums(r.Fork(), poolSize)
+			ops = trsGenHistory(r.Fork(), &trsNumAPI, pool, steps)
+			line, fails = trsRunHistory(&trsNumAPI, ops)
+		}
+		enc := kind + " " + strings.Join(ops, ";")
+		c.Case("h:"+enc, len(ops) >= 4)
+		c.Stat("history_" + kind)
+		c.StatN("history_steps", len(ops))
+		for _, f := range fails {
+			c.Violate("history", f.key, f.desc, enc)
+		}
+		c.Emit("TRS nth "+kind+" "+strings.Join(ops, ";"), line)
+		if i < 2 {
+			c.Sample("TRS nth " + kind + " " + strings.Join(ops, ";") + " => " + line)
+		}
+	}
+}
+
 // ---- generators ----
 
 func trsGenNames(r *Rand, n int) []pdf.Name {
@@ -1164,12 +1679,13 @@ func trsUnsort[K cmp.Ordered](r *Rand, keys []K) []K {
 
 func runC17(c *Ctx) {
 	r := c.R
-	sizes := []int{0, 1, 2, 3, 5, 63, 64, 65, 100, 127, 128, 129, 192, 500, 1000, 4095, 4096, 4097}
+	F := trsFanout() // pdftree.maxChildren as regenerated from the source
+	sizes := []int{0, 1, 2, 3, 5, F - 1, F, F + 1, 100, 2*F - 1, 2 * F, 2*F + 1, 3 * F, 500, 1000, F*F - 1, F * F, F*F + 1}
 	nRandom := 120
 	maxRandom := 600
 	nProbe := 12
 	if c.Thorough {
-		sizes = append(sizes, 4160, 8191, 8192, 8193, 10000, 64*65, 64*64+63)
+		sizes = append(sizes, F*F+F, 2*F*F-1, 2*F*F, 2*F*F+1, 10000, F*(F+1), F*F+F-1)
 		nRandom = 700
 		maxRandom = 1500
 		nProbe = 30
@@ -1211,6 +1727,8 @@ func runC17(c *Ctx) {
 
 	// kind: 0 name tree, 1 number tree, <0 random; stream: see trsTreeCase, <0 mostly plain;
 	// allKeys: probe every present key
+	var via int       // writer used by the next oneK call (see trsTreeCase.via)
+	structProbes := 0 // >0: fan-out F; probe trsStructIdx instead of all keys, emit the `ntb` line (no in-memory model)
 	oneK := func(n int, tag string, kind, stream int, allKeys bool) {
 		if kind < 0 {
 			kind = r.Intn(2)
@@ -1224,42 +1742,116 @@ func runC17(c *Ctx) {
 		style := r.Intn(2)
 		useMap := r.P(1, 4)
 		unsort := tag == "unsorted"
+		if unsort {
+			via = 0
+		}
+		switch via {
+		case 2:
+			c.Stat("writer_InMemory.Embed")
+		case 3:
+			c.Stat("writer_FromFile.Embed")
+		}
 		var line, opLine, enc string
 		var fails []trsFail
 		if kind == 0 {
 			keys := trsGenNames(r.Fork(), n)
 			probes := trsNameProbes(r.Fork(), keys, nProbe)
-			if allKeys {
+			if structProbes > 0 {
+				var sel []pdf.Name
+				for _, i := range trsStructIdx(r.Fork(), len(keys), structProbes) {
+					sel = append(sel, keys[i])
+				}
+				probes = append(sel, probes...)
+			} else if allKeys {
 				probes = append(append([]pdf.Name(nil), keys...), probes...)
 			}
 			if unsort {
 				keys = trsUnsort(r, keys)
 				useMap = false
 			}
-			tc := &trsTreeCase[pdf.Name]{keys, probes, style, useMap, stream}
+			tc := &trsTreeCase[pdf.Name]{keys, probes, style, useMap, stream, via}
 			enc = trsEncodeCase(&trsNameAPI, tc)
 			line, fails = trsRunCase(&trsNameAPI, tc)
 			opLine = "TRS nt name " + trsToks(&trsNameAPI, keys) + " " + trsToks(&trsNameAPI, probes)
+			if structProbes > 0 {
+				opLine = "TRS ntb name " + trsToks(&trsNameAPI, keys) + " " + trsToks(&trsNameAPI, probes)
+				line = trsBigLine(line)
+			}
 			c.Stat("nametree")
 		} else {
 			keys := trsGenNums(r.Fork(), n)
 			probes := trsNumProbes(r.Fork(), keys, nProbe)
-			if allKeys {
+			if structProbes > 0 {
+				var sel []pdf.Integer
+				for _, i := range trsStructIdx(r.Fork(), len(keys), structProbes) {
+					sel = append(sel, keys[i])
+				}
+				probes = append(sel, probes...)
+			} else if allKeys {
 				probes = append(append([]pdf.Integer(nil), keys...), probes...)
 			}
 			if unsort {
 				keys = trsUnsort(r, keys)
 			}
-			tc := &trsTreeCase[pdf.Integer]{keys, probes, style, false, stream}
+			tc := &trsTreeCase[pdf.Integer]{keys, probes, style, false, stream, via}
 			enc = trsEncodeCase(&trsNumAPI, tc)
 			line, fails = trsRunCase(&trsNumAPI, tc)
 			opLine = "TRS nt num " + trsToks(&trsNumAPI, keys) + " " + trsToks(&trsNumAPI, probes)
+			if structProbes > 0 {
+				opLine = "TRS ntb num " + trsToks(&trsNumAPI, keys) + " " + trsToks(&trsNumAPI, probes)
+				line = trsBigLine(line)
+			}
 			c.Stat("numtree")
 		}
 		record(n, tag, useMap, stream, enc, opLine, line, fails)
 	}
 
-	one := func(n int, tag string) { oneK(n, tag, -1, -1, false) }
+	one := func(n int, tag string) {
+		via = 0
+		if r.P(1, 4) {
+			via = 2 + r.Intn(2)
+		}
+		oneK(n, tag, -1, -1, false)
+		via = 0
+	}
+
+	// sizes around every power of the fan-out (read from the regenerated facts, so that they
+	// follow the source): the first sizes with one, two and three node levels below the root,
+	// with last leaves of 1, 2, 3 and F-1 entries and last intermediate nodes of several kids.
+	// All four writers in turn (Write, WriteMap, InMemory.Embed, FromFile.Embed); every key is
+	// looked up, /Limits of every node at every level is compared with its subtree.
+	c.Sample(fmt.Sprintf("fan-out from the extracted facts: %d", F))
+	bsizes := []int{F*F + 1, F*F + 2, F*F + F + 2,
+		F*F + 3*F + 1, F*F + 3*F + F - 1, F*F + (F-1)*F, F*F + (F-1)*F + 2, 2*F*F - 1, 2*F*F + 2}
+	if c.Thorough {
+		bsizes = append(bsizes, F-1, F, F+1, F*F-1, F*F, F*F+F-1, F*F+F, F*F+F+1, F*F+2*F-1, 2*F*F-2, 2*F*F, 2*F*F+1, 3*F*F+1, 3*F*F+F+2)
+		for _, k := range []int{5, 17, F / 2, F - 2, F + 1} {
+			for _, d := range []int{0, 1, 2, F - 1} {
+				bsizes = append(bsizes, F*F+k*F+d)
+			}
+		}
+	}
+	nBig := 2
+	if c.Thorough {
+		nBig = 12
+	}
+	for i := 0; i < nBig; i++ {
+		bsizes = append(bsizes, F*F+1+r.Intn(20000-F*F))
+	}
+	for i, n := range bsizes {
+		if n < 0 || n > 40000 {
+			continue
+		}
+		for kind := 0; kind < 2; kind++ {
+			via = []int{0, 2, 3}[(i+kind)%3]
+			if n > F*F/2 {
+				structProbes = F
+			}
+			oneK(n, "fanout-boundary", kind, 0, true)
+			structProbes = 0
+		}
+	}
+	via = 0
 
 	// fixed corpus: keys that a decoder treating keys as text strings would change or identify
 	// with each other (byte-order marks, UTF-16 text next to the text it spells, NUL,
@@ -1267,7 +1859,7 @@ func runC17(c *Ctx) {
 	cSets, cProbes := trsCodecCorpus()
 	for i, keys := range cSets {
 		for stream := 0; stream < 2; stream++ {
-			tc := &trsTreeCase[pdf.Name]{keys, cProbes[i], i % 2, stream == 0 && i%2 == 1, stream}
+			tc := &trsTreeCase[pdf.Name]{keys, cProbes[i], i % 2, stream == 0 && i%2 == 1, stream, 0}
 			enc := trsEncodeCase(&trsNameAPI, tc)
 			line, fails := trsRunCase(&trsNameAPI, tc)
 			opLine := "TRS nt name " + trsToks(&trsNameAPI, keys) + " " + trsToks(&trsNameAPI, cProbes[i])
@@ -1280,9 +1872,9 @@ func runC17(c *Ctx) {
 	// node is then only queued and serialised when the stream closes, so anything the tree
 	// writer reuses between nodes would show up in all queued nodes.  Every present key is
 	// looked up with both readers.
-	streamSizes := []int{1, 2, 63, 64, 65, 129, 200, 700}
+	streamSizes := []int{1, 2, F - 1, F, F + 1, 2*F + 1, 200, 700}
 	if c.Thorough {
-		streamSizes = append(streamSizes, 4097)
+		streamSizes = append(streamSizes, F*F+1)
 	}
 	for _, n := range streamSizes {
 		for kind := 0; kind < 2; kind++ {
@@ -1294,8 +1886,10 @@ func runC17(c *Ctx) {
 	if !c.Thorough {
 		// two intermediate nodes are queued only from 4097 entries on (mergeTail's node of 64
 		// leaves, then collapse's nodes)
-		oneK(4097, "stream", 0, 1, true)
-		oneK(4097, "stream", 1, 2, true)
+		structProbes = F
+		oneK(F*F+1, "stream", 0, 1, true)
+		oneK(F*F+1, "stream", 1, 2, true)
+		structProbes = 0
 	}
 
 	for _, n := range sizes {
